@@ -234,6 +234,10 @@ class NoteData:
             if last_measure == -1:
                 push_measure()
 
+        # if there were no notes (hence no players) at all, write a blank measure
+        if last_player == -1:
+            push_measure()
+
         return cls(notedata.getvalue())
 
     # Returns the line without keysound indices and optionally populates the
